@@ -331,80 +331,101 @@ func TestE2EStackLIFOAndFIFO(t *testing.T) {
 // ---------------------------------------------------------------------------
 
 func TestParseSweepAllOpcodes(t *testing.T) {
-	type res struct{ syntax, defects, unsupported, elabFail, ok int }
-	var total res
-	var syntaxOps, defectOps, elabOps []string
-	for _, op := range procbuilder.Allopcodes {
-		name := op.Op_get_name()
-		for _, rsize := range []int{8, 32} {
-			ops := []string{name, "nop"}
-			files, err := renderProc(t, procCfg{ops: ops, rsize: rsize, R: 2, N: 1, M: 1, L: 2, O: 4, prog: "nop\n"})
-			if err != nil {
-				t.Logf("%-8s rsize=%-2d render failed: %v", name, rsize, err)
-				continue
-			}
-			d, diags := ParseDesign(files) // must not panic
-			nsyn := 0
-			for _, dg := range diags {
-				if dg.Class == ClassSyntax {
-					nsyn++
-					if rsize == 8 {
-						t.Logf("%-8s syntax: %v", name, dg)
+	// Two variants per opcode and register size:
+	//   alone : {op, nop}            (the configuration asked for by the task)
+	//   io    : {op, nop, i2r, r2o}  (declares i0_recv / o0_val, so that more of the sweep reaches the simulator)
+	type counts struct{ syntax, defects, elabFail, ok int }
+	for _, variant := range []string{"alone", "io"} {
+		var total counts
+		var syntaxOps, elabOps, okOps []string
+		for _, op := range procbuilder.Allopcodes {
+			name := op.Op_get_name()
+			for _, rsize := range []int{8, 32} {
+				ops := []string{name, "nop"}
+				if variant == "io" {
+					for _, extra := range []string{"i2r", "r2o"} {
+						if extra != name {
+							ops = append(ops, extra)
+						}
 					}
 				}
-			}
-			ldiags := Lint(d, LintOpts{})
-			ndef := 0
-			seen := map[string]bool{}
-			for _, dg := range ldiags {
-				if isDefect(dg.Class) {
-					ndef++
-					k := string(dg.Class) + ":" + dg.Ident
-					if rsize == 8 && !seen[k] {
-						seen[k] = true
+				files, err := renderProc(t, procCfg{ops: ops, rsize: rsize, R: 2, N: 1, M: 1, L: 2, O: 4, prog: "nop\n"})
+				if err != nil {
+					t.Logf("[%s] %-8s rsize=%-2d render failed: %v", variant, name, rsize, err)
+					continue
+				}
+				d, diags := ParseDesign(files) // must not panic
+				nsyn := 0
+				for _, dg := range diags {
+					if strings.Contains(dg.Msg, "internal parser panic") {
+						t.Errorf("[%s] %s/%d: %v", variant, name, rsize, dg)
 					}
-				} else {
-					total.unsupported++
+					if dg.Class == ClassSyntax {
+						nsyn++
+						if rsize == 8 {
+							t.Logf("[%s] %-8s syntax: %v", variant, name, dg)
+						}
+					}
 				}
-			}
-			if rsize == 8 && len(seen) > 0 {
-				var ks []string
-				for k := range seen {
-					ks = append(ks, k)
+				ldiags := Lint(d, LintOpts{})
+				ndef := 0
+				seen := map[string]bool{}
+				for _, dg := range ldiags {
+					if strings.Contains(dg.Msg, "internal lint panic") {
+						t.Errorf("[%s] %s/%d: %v", variant, name, rsize, dg)
+					}
+					if isDefect(dg.Class) {
+						ndef++
+						seen[string(dg.Class)+":"+dg.Ident] = true
+					}
 				}
-				sort.Strings(ks)
-				t.Logf("%-8s lint: %s", name, strings.Join(ks, " "))
-			}
-			tag := fmt.Sprintf("%s/%d", name, rsize)
-			switch {
-			case nsyn > 0:
-				total.syntax++
-				syntaxOps = append(syntaxOps, tag)
-			case ndef > 0:
-				total.defects++
-				defectOps = append(defectOps, tag)
-			default:
-				if s, err := Elaborate(d, "a0", nil); err != nil {
-					total.elabFail++
-					elabOps = append(elabOps, tag+": "+err.Error())
-				} else {
+				if rsize == 8 && len(seen) > 0 {
+					var ks []string
+					for k := range seen {
+						ks = append(ks, k)
+					}
+					sort.Strings(ks)
+					t.Logf("[%s] %-8s lint: %s", variant, name, strings.Join(ks, " "))
+				}
+				tag := fmt.Sprintf("%s/%d", name, rsize)
+				switch {
+				case nsyn > 0:
+					total.syntax++
+					syntaxOps = append(syntaxOps, tag)
+				case ndef > 0:
+					total.defects++
+				default:
+					s, err := Elaborate(d, "a0", nil)
+					if err != nil {
+						if strings.Contains(err.Error(), "internal error") {
+							t.Errorf("[%s] %s: %v", variant, tag, err)
+						}
+						total.elabFail++
+						elabOps = append(elabOps, tag+": "+err.Error())
+						continue
+					}
 					total.ok++
+					okOps = append(okOps, tag)
 					resetProc(t, s)
-					for i := 0; i < 8; i++ {
+					for i := 0; i < 16; i++ {
 						tick(t, s, "clock_signal")
 					}
+					// (ROM words after the single nop are zero = the alphabetically first opcode, so
+					// nothing is asserted about the architectural state here; the run must not fail.)
 				}
 			}
 		}
+		// Observed on the pinned BondMachine tree:
+		//   alone: every configuration reads the undeclared i0_recv and/or o0_val ("assign i0_received = i0_recv"
+		//          is emitted although the reg is only declared by i2r-like / r2o-like opcodes) -> nothing elaborates.
+		//   both : k2r q2r r2q r2t r2u t2r u2r render a dangling "localparam"; m2r m2rri render "? x : ;" (syntax) when
+		//          their shared object / ram is absent; channel, shared memory, vtextmem, thread and von-Neumann
+		//          opcodes reference signals that only exist with the matching shared object or mode.
+		t.Logf("[%s] sweep: %d syntax, %d lint-defect, %d elaboration failures, %d clean and simulated", variant, total.syntax, total.defects, total.elabFail, total.ok)
+		t.Logf("[%s] syntax: %v", variant, syntaxOps)
+		t.Logf("[%s] elaboration failures: %v", variant, elabOps)
+		t.Logf("[%s] simulated: %v", variant, okOps)
 	}
-	// Observed on the pinned BondMachine tree (single opcode + nop, no shared objects attached):
-	//   * every configuration without i2r / r2o reads the undeclared i0_recv / o0_val (assign i0_received = i0_recv)
-	//   * k2r q2r r2q r2t r2u t2r u2r render a dangling "localparam" ; m2r m2rri render "? x : ;" (syntax)
-	//   * channel / shared-memory / vtextmem / thread opcodes reference signals of absent shared objects
-	t.Logf("sweep: %d syntax, %d lint-defect, %d elaboration failures, %d clean+simulated", total.syntax, total.defects, total.elabFail, total.ok)
-	t.Logf("syntax: %v", syntaxOps)
-	t.Logf("elab failures: %v", elabOps)
-	_ = defectOps
 }
 
 // goStringConsts extracts string constants (literals joined with +) from a Go source file.
@@ -665,5 +686,49 @@ func TestTickThroughputFloor(t *testing.T) {
 	t.Logf("11-opcode 8-bit processor: %.0f ticks/s (%d allocs/op)", tps, res.AllocsPerOp())
 	if tps < 100000 {
 		t.Errorf("throughput %.0f ticks/s is below the 100k target", tps)
+	}
+}
+
+func BenchmarkParseLintElaborate(b *testing.B) {
+	files, err := renderProc(b, procCfg{ops: defaultOps, rsize: 8, R: 2, N: 1, M: 1, L: 2, O: 4, prog: counterProg})
+	if err != nil {
+		b.Fatal(err)
+	}
+	b.ReportAllocs()
+	b.ResetTimer()
+	for i := 0; i < b.N; i++ {
+		d, _ := ParseDesign(files)
+		if ld := Lint(d, LintOpts{}); len(ld) != 0 {
+			b.Fatal(ld)
+		}
+		if _, err := Elaborate(d, "a0", nil); err != nil {
+			b.Fatal(err)
+		}
+	}
+}
+
+func TestParallelClones(t *testing.T) {
+	base := buildProc(t, procCfg{ops: defaultOps, rsize: 8, R: 2, N: 1, M: 1, L: 2, O: 4, prog: counterProg})
+	resetProc(t, base)
+	done := make(chan uint64, 8)
+	for g := 0; g < 8; g++ {
+		s := base.Clone()
+		go func() {
+			for i := 0; i < 3000; i++ {
+				if err := s.Tick("clock_signal"); err != nil {
+					break
+				}
+			}
+			done <- s.Get("p0_instance._r0")
+		}()
+	}
+	first := <-done
+	for g := 1; g < 8; g++ {
+		if v := <-done; v != first {
+			t.Fatalf("clone %d diverged: %d vs %d", g, v, first)
+		}
+	}
+	if first != (5+1000)&0xff { // rset, then 999 full loops of 3 instructions + inc of the 1000th
+		t.Logf("r0 after 3000 ticks = %d", first)
 	}
 }
